@@ -6,6 +6,7 @@ import (
 	"go/token"
 	"go/types"
 	"sort"
+	"strings"
 
 	"golang.org/x/tools/go/packages"
 )
@@ -372,4 +373,229 @@ func lateAssignedDepth(pk *packages.Package, fd *ast.FuncDecl, holder types.Obje
 		return true
 	})
 	return out
+}
+
+// fieldPair: in a keyed literal of struct Dst, field DstField is computed from field SrcField of struct Src.
+type fieldPair struct {
+	Src, Dst           *types.Named
+	SrcField, DstField string
+	Unit               string // "s", "ms", "ns" or ""
+	Pos                token.Pos
+	Fn                 string
+}
+
+// collectFieldPairs extracts, from every keyed struct literal of the package, which source struct fields
+// each destination field is computed from (selectors on protocol structs inside the value expression).
+func collectFieldPairs(pk *packages.Package, isProto func(*types.Named) bool) []fieldPair {
+	var out []fieldPair
+	for _, f := range pk.Syntax {
+		for _, d := range f.Decls {
+			fd, ok := d.(*ast.FuncDecl)
+			if !ok || fd.Body == nil {
+				continue
+			}
+			ast.Inspect(fd.Body, func(n ast.Node) bool {
+				cl, ok := n.(*ast.CompositeLit)
+				if !ok {
+					return true
+				}
+				dst := namedPtr(pk.TypesInfo.TypeOf(cl))
+				if dst == nil || !isProto(dst) {
+					return true
+				}
+				if _, isStruct := dst.Underlying().(*types.Struct); !isStruct {
+					return true
+				}
+				for _, e := range cl.Elts {
+					kv, ok := e.(*ast.KeyValueExpr)
+					if !ok {
+						continue
+					}
+					kid, ok := kv.Key.(*ast.Ident)
+					if !ok {
+						continue
+					}
+					unit := unitOf(pk, kv.Value)
+					ast.Inspect(kv.Value, func(m ast.Node) bool {
+						if _, isLit := m.(*ast.CompositeLit); isLit {
+							return false // nested literal: its own pairs
+						}
+						se, ok := m.(*ast.SelectorExpr)
+						if !ok {
+							return true
+						}
+						sel := pk.TypesInfo.Selections[se]
+						if sel == nil || sel.Kind() != types.FieldVal {
+							return true
+						}
+						src := namedPtr(sel.Recv())
+						if src == nil || !isProto(src) {
+							return true
+						}
+						out = append(out, fieldPair{Src: src, Dst: dst, SrcField: se.Sel.Name, DstField: kid.Name, Unit: unit, Pos: kv.Pos(), Fn: fd.Name.Name})
+						return true
+					})
+				}
+				return true
+			})
+		}
+	}
+	return out
+}
+
+// unitOf: the time unit applied in an expression: x.Seconds() / x.Milliseconds() / x.UnixNano(),
+// or time.Duration(x) * time.Second / time.Millisecond, time.Unix(0, x).
+func unitOf(pk *packages.Package, e ast.Expr) string {
+	unit := ""
+	ast.Inspect(e, func(n ast.Node) bool {
+		switch x := n.(type) {
+		case *ast.CallExpr:
+			if se, ok := x.Fun.(*ast.SelectorExpr); ok {
+				switch se.Sel.Name {
+				case "Seconds":
+					unit = "s"
+				case "Milliseconds":
+					unit = "ms"
+				case "Microseconds":
+					unit = "us"
+				case "Nanoseconds", "UnixNano":
+					unit = "ns"
+				case "UnixMilli":
+					unit = "ms"
+				case "Unix":
+					// time.Unix(sec, nsec): which argument carries the value?
+					if id, ok := se.X.(*ast.Ident); ok && id.Name == "time" && len(x.Args) == 2 {
+						isZero := func(a ast.Expr) bool { b, ok := a.(*ast.BasicLit); return ok && b.Value == "0" }
+						switch {
+						case isZero(x.Args[0]) && !isZero(x.Args[1]):
+							unit = "ns"
+						case !isZero(x.Args[0]) && isZero(x.Args[1]):
+							unit = "s"
+						}
+					} else if len(x.Args) == 0 {
+						unit = "s" // t.Unix()
+					}
+				}
+			}
+		case *ast.BinaryExpr:
+			if x.Op == token.MUL {
+				for _, side := range []ast.Expr{x.X, x.Y} {
+					if se, ok := side.(*ast.SelectorExpr); ok {
+						if id, ok := se.X.(*ast.Ident); ok && id.Name == "time" {
+							switch se.Sel.Name {
+							case "Second":
+								unit = "s"
+							case "Millisecond":
+								unit = "ms"
+							case "Microsecond":
+								unit = "us"
+							case "Nanosecond":
+								unit = "ns"
+							}
+						}
+					}
+				}
+			}
+		}
+		return true
+	})
+	return unit
+}
+
+// nameMismatch: in a keyed literal, `Dst.g: x.f` where x's struct also has a field named g of the same type
+// as f — the same-named field was available and a different one was used.
+type nameMismatch struct {
+	Fn       string
+	Dst      *types.Named
+	DstField string
+	Src      *types.Named
+	SrcField string
+	Pos      token.Pos
+}
+
+func normField(s string) string {
+	s = strings.ToLower(s)
+	s = strings.ReplaceAll(s, "_", "")
+	return s
+}
+
+func collectNameAgreement(pk *packages.Package) (checked int, bad []nameMismatch) {
+	for _, f := range pk.Syntax {
+		for _, d := range f.Decls {
+			fd, ok := d.(*ast.FuncDecl)
+			if !ok || fd.Body == nil {
+				continue
+			}
+			ast.Inspect(fd.Body, func(n ast.Node) bool {
+				cl, ok := n.(*ast.CompositeLit)
+				if !ok {
+					return true
+				}
+				dst := namedPtr(pk.TypesInfo.TypeOf(cl))
+				if dst == nil {
+					return true
+				}
+				if _, isStruct := dst.Underlying().(*types.Struct); !isStruct {
+					return true
+				}
+				for _, e := range cl.Elts {
+					kv, ok := e.(*ast.KeyValueExpr)
+					if !ok {
+						continue
+					}
+					kid, ok := kv.Key.(*ast.Ident)
+					if !ok {
+						continue
+					}
+					// value: a plain selector chain x.f (possibly wrapped in a conversion T(x.f))
+					val := kv.Value
+					if call, isCall := val.(*ast.CallExpr); isCall && len(call.Args) == 1 {
+						if tv, ok := pk.TypesInfo.Types[call.Fun]; ok && tv.IsType() {
+							val = call.Args[0]
+						}
+					}
+					se, ok := val.(*ast.SelectorExpr)
+					if !ok {
+						continue
+					}
+					sel := pk.TypesInfo.Selections[se]
+					if sel == nil || sel.Kind() != types.FieldVal {
+						continue
+					}
+					src := namedPtr(sel.Recv())
+					if src == nil {
+						continue
+					}
+					sst, ok := src.Underlying().(*types.Struct)
+					if !ok {
+						continue
+					}
+					// only plain data structs (every field exported): stateful objects legitimately have
+					// several same-typed fields with different roles
+					plain := sst.NumFields() > 0
+					for i := 0; i < sst.NumFields(); i++ {
+						if !sst.Field(i).Exported() {
+							plain = false
+						}
+					}
+					if !plain {
+						continue
+					}
+					checked++
+					if normField(se.Sel.Name) == normField(kid.Name) {
+						continue
+					}
+					// does src have a field named like the destination, with the type of the field used?
+					for i := 0; i < sst.NumFields(); i++ {
+						sf := sst.Field(i)
+						if normField(sf.Name()) == normField(kid.Name) && types.Identical(sf.Type(), sel.Type()) {
+							bad = append(bad, nameMismatch{Fn: fd.Name.Name, Dst: dst, DstField: kid.Name, Src: src, SrcField: se.Sel.Name, Pos: kv.Pos()})
+						}
+					}
+				}
+				return true
+			})
+		}
+	}
+	return
 }
